@@ -558,6 +558,8 @@ struct World {
     /// set by `judge_recovered`: does the recovered state equal `log_view`?
     cur_faithful: Option<bool>,
     cur_got: Option<RefGraph>,
+    /// (file, bit) positions flipped so far in this run
+    flipped_bits: BTreeSet<(String, usize)>,
 }
 
 impl World {
@@ -986,6 +988,7 @@ pub fn exec(cfg: &Config, ops: &[Op], run_tag: &str) -> ExecResult {
         log_view: None,
         cur_faithful: None,
         cur_got: None,
+        flipped_bits: BTreeSet::new(),
     };
     let mut probe_rng = Prng::new(cfg.probe_seed);
     let mut steps_done = 0usize;
@@ -1353,7 +1356,18 @@ pub fn exec(cfg: &Config, ops: &[Op], run_tag: &str) -> ExecResult {
                         flipped_not_last = fi + 1 < logs.len();
                         let f = &logs[fi];
                         let mut bytes = std::fs::read(f).unwrap();
-                        let bit = *bit_pick as usize % (bytes.len() * 8);
+                        // a bit that this run has flipped already is not flipped back: that would
+                        // not be a second fault but the repair of the first one (the records behind
+                        // it become readable again)
+                        let total = bytes.len() * 8;
+                        let mut bit = *bit_pick as usize % total;
+                        let name = rel(f);
+                        let mut tries = 0;
+                        while w.flipped_bits.contains(&(name.clone(), bit)) && tries < total {
+                            bit = (bit + 1) % total;
+                            tries += 1;
+                        }
+                        w.flipped_bits.insert((name, bit));
                         bytes[bit / 8] ^= 1 << (bit % 8);
                         std::fs::write(f, &bytes).unwrap();
                         w.fault("bitflip");
